@@ -129,6 +129,51 @@ fn empty_tx() -> tir::Tx {
     }
 }
 
+pub const DEEP_WRAPPERS: usize = 11;
+pub const DEEP_DEPTHS: [usize; 17] = [50, 100, 200, 255, 256, 257, 300, 400, 500, 700, 1000, 1023, 1024, 1025, 3000, 20_000, 100_000];
+
+/// wrapper^depth around a leaf, spliced into the `fees` field of a valid transaction (raw bytes)
+pub fn deep_payload(wi: usize, depth: usize) -> (&'static str, Vec<u8>) {
+    let marker = tir::Expression::String("@@MARK@@".into());
+    let enc = |e: &tir::Expression| canon::value_bytes(&canon::to_value(e));
+    let m = enc(&marker);
+    let split = |whole: Vec<u8>| -> Option<(Vec<u8>, Vec<u8>)> {
+        let pos = whole.windows(m.len()).position(|w| w == m.as_slice())?;
+        Some((whole[..pos].to_vec(), whole[pos + m.len()..].to_vec()))
+    };
+    let wrappers: Vec<(&'static str, tir::Expression)> = vec![
+        ("List", tir::Expression::List(vec![marker.clone()])),
+        ("Tuple", tir::Expression::Tuple(Box::new((marker.clone(), tir::Expression::None)))),
+        ("Map-key", tir::Expression::Map(vec![(marker.clone(), tir::Expression::None)])),
+        ("Map-value", tir::Expression::Map(vec![(tir::Expression::None, marker.clone())])),
+        ("Struct", tir::Expression::Struct(tir::StructExpr { constructor: 0, fields: vec![marker.clone()] })),
+        ("Coerce", tir::Expression::EvalCoerce(Box::new(tir::Coerce::NoOp(marker.clone())))),
+        ("Negate", tir::Expression::EvalBuiltIn(Box::new(tir::BuiltInOp::Negate(marker.clone())))),
+        ("Add-left", tir::Expression::EvalBuiltIn(Box::new(tir::BuiltInOp::Add(marker.clone(), tir::Expression::None)))),
+        ("Param-Set", tir::Expression::EvalParam(Box::new(tir::Param::Set(marker.clone())))),
+        ("Asset-amount", tir::Expression::Assets(vec![tir::AssetExpr { policy: tir::Expression::None, asset_name: tir::Expression::None, amount: marker.clone() }])),
+        ("MinUtxo", tir::Expression::EvalCompiler(Box::new(tir::CompilerOp::ComputeMinUtxo(marker.clone())))),
+    ];
+    let (wname, w) = &wrappers[wi % wrappers.len()];
+    let mut t = empty_tx();
+    t.fees = marker.clone();
+    match (split(enc(w)), split(to_bytes(&t).0)) {
+        (Some((wp, ws)), Some((tp, ts))) => {
+            let mut b = tp;
+            for _ in 0..depth {
+                b.extend_from_slice(&wp);
+            }
+            b.extend_from_slice(&enc(&tir::Expression::None));
+            for _ in 0..depth {
+                b.extend_from_slice(&ws);
+            }
+            b.extend_from_slice(&ts);
+            (wname, b)
+        }
+        _ => (wname, to_bytes(&t).0),
+    }
+}
+
 const VERSION_STRINGS: &[&str] = &[
     "v1beta0", "v1alpha8", "v1alpha9", "v1alpha7", "v1alpha0", "v1beta1", "v1beta", "V1BETA0", "V1Beta0", "v1Beta0", " v1beta0", "v1beta0 ", "v1beta0\n", "v1beta00",
     "v2beta0", "v0beta0", "", "latest", "1", "v1", "beta0", "v1-beta0", "v1_beta0", "v1beta0\u{0}", "ｖ1beta0", "v1alpha8 ", "v1gamma0", "v1beta-0",
@@ -139,8 +184,17 @@ impl C11 {
         // base encodings
         let mut gen = TirGen::new(3, true);
         let base = to_bytes(&gen.tx(rng)).0;
-        let kind = idx % 12;
+        let kind = idx % 13;
         let bytes: Vec<u8> = match kind {
+            12 => {
+                // deep nesting in a *typed* position, written as raw bytes (no recursion on our side)
+                let wi = rng.usize(DEEP_WRAPPERS);
+                let depth = *rng.pick(&DEEP_DEPTHS);
+                let (wname, b) = deep_payload(wi, depth);
+                ctx.count(&format!("deep-typed/{wname}"));
+                ctx.count(if depth <= 200 { "deep-typed/depth<=200" } else if depth <= 1100 { "deep-typed/depth-201..1100" } else { "deep-typed/depth>1100" });
+                b
+            }
             0 => {
                 let n = rng.usize(200);
                 rng.bytes(n)
@@ -256,8 +310,30 @@ impl C11 {
         };
         ctx.eval();
         ctx.count(&format!("hostile-kind/{kind}"));
-        let r = crate::panics::catch(|| from_bytes(&bytes, TirVersion::V1Beta0));
+        // nested inputs are decoded on a thread with Rust's default stack for spawned threads (2 MiB: what
+        // a server's worker thread has), the rest on the main thread
+        let r = if matches!(kind, 5 | 6 | 12) {
+            ctx.count("hostile/decoded-on-2MiB-thread");
+            let b = bytes.clone();
+            crate::panics::catch(move || {
+                std::thread::Builder::new()
+                    .stack_size(2 << 20)
+                    .spawn(move || {
+                        // a panic inside the thread is reported through the join handle
+                        std::panic::catch_unwind(|| from_bytes(&b, TirVersion::V1Beta0).map(|_| ()).map_err(|e| e.to_string()))
+                    })
+                    .expect("spawn")
+                    .join()
+            })
+            .map(|j| match j {
+                Ok(Ok(r)) => r,
+                _ => Err("panic-in-decoder-thread".to_string()),
+            })
+        } else {
+            crate::panics::catch(|| from_bytes(&bytes, TirVersion::V1Beta0).map(|_| ()).map_err(|e| e.to_string()))
+        };
         match r {
+            Ok(Err(e)) if e == "panic-in-decoder-thread" => ctx.violation("decode-panic:on-2MiB-thread", json!({"kind": kind, "bytes_hex_prefix": hex::encode(&bytes[..bytes.len().min(200)]), "len": bytes.len()})),
             Ok(Ok(_)) => ctx.count("hostile/ok"),
             Ok(Err(_)) => ctx.count("hostile/err"),
             Err(p) => ctx.violation(
@@ -325,7 +401,7 @@ impl Property for C11 {
     }
 
     fn rule(&self) -> String {
-        "trees: random tir::Tx values (every Expression / Param / BuiltInOp / CompilerOp / Coerce / ScriptSource-free block variant, depth <= 6, ints over the i128 boundary set, usize::MAX constructors, byte strings 0..3000, UTxO sets with datums); lowered: every tx of every example program and of generated programs; hostile: 12 mutation kinds of valid encodings (random, bit flips, truncation, splice, length lies, nesting bombs to 1e5, valid deep lists to 1000, overwrites, duplications, bad utf-8, wrong major types, foreign values); versions: fixed list + random near-misses of 'v1beta0', direct and through TirEnvelope. Non-trivial: a tree whose serialisation uses >= 6 distinct IR variants / a distinct hostile byte string / a distinct version string.".into()
+        "trees: random tir::Tx values (every Expression / Param / BuiltInOp / CompilerOp / Coerce / ScriptSource-free block variant, depth <= 6, ints over the i128 boundary set, usize::MAX constructors, byte strings 0..3000, UTxO sets with datums); lowered: every tx of every example program and of generated programs; hostile: 12 mutation kinds of valid encodings (random, bit flips, truncation, splice, length lies, nesting bombs to 1e5, valid deep lists to 1000, 11 kinds of expression wrapper nested 50..100000 deep in a typed position (raw bytes) - all nested inputs decoded on a 2 MiB thread, and once more by an unoptimised (dev-profile) probe binary on a 2 MiB thread, overwrites, duplications, bad utf-8, wrong major types, foreign values); versions: fixed list + random near-misses of 'v1beta0', direct and through TirEnvelope. Non-trivial: a tree whose serialisation uses >= 6 distinct IR variants / a distinct hostile byte string / a distinct version string.".into()
     }
 
     fn assumptions(&self) -> Vec<String> {
@@ -367,11 +443,98 @@ impl Property for C11 {
         .map(|s| format!("shape/{s}"))
         .collect();
         v.push("feature/valid-deep-list".into());
+        v.push("deep-typed/depth-201..1100".into());
+        v.push("deep-typed/depth>1100".into());
+        v.push("hostile/decoded-on-2MiB-thread".into());
+        v.push("stack-probe/err".into());
         v.push("examples/lowered-tx".into());
         v.push("hostile/err".into());
         v.push("versions/rejected".into());
         v.push("versions/accepted-current".into());
         v
+    }
+
+    fn supervisor_phase(&self, ctx: &mut Ctx, env: &Env) {
+        // the same nested payloads through a small *unoptimised* binary (what `cargo run` / `cargo test`
+        // users execute) that decodes each on a 2 MiB thread: an overflow there aborts the process
+        let probe = env.target_dir.join("stackprobe").join("debug").join("tx3-stackprobe");
+        if !probe.exists() {
+            ctx.inconclusive("stack-probe:binary-missing");
+            return;
+        }
+        let mut inputs: Vec<(String, Vec<u8>)> = vec![];
+        for wi in 0..DEEP_WRAPPERS {
+            for d in DEEP_DEPTHS {
+                let (w, b) = deep_payload(wi, d);
+                inputs.push((format!("{w}@{d}"), b));
+            }
+        }
+        for n in [100usize, 255, 256, 257, 1000, 10_000, 100_000] {
+            inputs.push((format!("raw-array@{n}"), vec![0x81; n]));
+            inputs.push((format!("raw-tag@{n}"), vec![0xc1; n]));
+            inputs.push((format!("raw-indefinite-array@{n}"), vec![0x9f; n]));
+            inputs.push((format!("raw-map@{n}"), [0xa1u8, 0x00].repeat(n)));
+        }
+        let dir = env.target_dir.join("runs").join(format!("C11-stackprobe-{}", std::process::id()));
+        let _ = std::fs::create_dir_all(&dir);
+        let mut pending: Vec<usize> = (0..inputs.len()).collect();
+        let mut rounds = 0;
+        while !pending.is_empty() && rounds < 40 {
+            rounds += 1;
+            let file = dir.join(format!("inputs-{rounds}.hex"));
+            let text: String = pending.iter().map(|i| hex::encode(&inputs[*i].1) + "\n").collect();
+            if std::fs::write(&file, text).is_err() {
+                ctx.inconclusive("stack-probe:cannot-write-inputs");
+                break;
+            }
+            let out = std::process::Command::new(&probe).arg(&file).stdin(std::process::Stdio::null()).stderr(std::process::Stdio::null()).output();
+            let Ok(out) = out else {
+                ctx.inconclusive("stack-probe:cannot-run");
+                break;
+            };
+            let stdout = String::from_utf8_lossy(&out.stdout).to_string();
+            let mut started: Option<usize> = None;
+            let mut done = 0usize;
+            for line in stdout.lines() {
+                let mut it = line.split(' ');
+                let (Some(a), Some(b)) = (it.next(), it.next()) else { continue };
+                let Ok(k) = a.parse::<usize>() else { continue };
+                match b {
+                    "START" => started = Some(k),
+                    "OK" | "ERR" | "PANIC" => {
+                        started = None;
+                        done = k + 1;
+                        ctx.eval();
+                        ctx.count(&format!("stack-probe/{}", b.to_lowercase()));
+                        ctx.nontrivial_str(&format!("stack-probe:{}", inputs[pending[k]].0));
+                        if b == "PANIC" {
+                            ctx.violation("decode-panic:dev-profile:2MiB-thread", json!({"payload": inputs[pending[k]].0}));
+                        }
+                    }
+                    _ => {}
+                }
+            }
+            use std::os::unix::process::ExitStatusExt;
+            if out.status.success() {
+                pending.clear();
+            } else if let (Some(sig), Some(k)) = (out.status.signal(), started) {
+                let (name, _) = &inputs[pending[k]];
+                let family = name.split('@').next().unwrap_or("?").to_string();
+                let depth: usize = name.split('@').nth(1).and_then(|d| d.parse().ok()).unwrap_or(0);
+                ctx.eval();
+                ctx.count("stack-probe/abort");
+                ctx.violation(
+                    format!("abort:signal:{sig}:decode:dev-profile:2MiB-thread:depth{}", if depth <= 256 { "<=256" } else { ">256" }),
+                    json!({"payload": name, "wrapper": family, "depth": depth, "len": inputs[pending[k]].1.len(), "what": "tx3_tir::encoding::from_bytes on a 2 MiB thread in an unoptimised build was killed by a signal (stack overflow)"}),
+                );
+                pending = pending[k + 1..].to_vec();
+            } else {
+                ctx.inconclusive("stack-probe:unexpected-exit");
+                let _ = done;
+                break;
+            }
+        }
+        let _ = std::fs::remove_dir_all(&dir);
     }
 
     fn run_case(&self, ctx: &mut Ctx, phase: &str, idx: u64, rng: &mut Rng) {
